@@ -368,7 +368,7 @@ func (s *statsManager) addInflight(clientID string, delta uint64) {
 	defer s.clientMu.Unlock()
 	sts := s.getClientStats(clientID)
 	atomic.AddUint64(&sts.MessageStats.InflightCurrent, delta)
-	atomic.AddUint64(&s.totalStats.MessageStats.InflightCurrent, 1)
+	atomic.AddUint64(&s.totalStats.MessageStats.InflightCurrent, delta)
 }
 func (s *statsManager) decInflight(clientID string, delta uint64) {
 	s.clientMu.Lock()
